@@ -495,95 +495,151 @@ def g5iii_allocator_validation(prog):
     if f is None:
         r.viol('G5iii', 'missing', '-', 'from_serialized_parts not found')
         return r
+    E = pathsem.analyse(prog, f, max_paths=40000)
+    if E.truncated or not E.paths:
+        r.viol('G5iii', 'not-analysable', f.loc(), 'path enumeration cut off')
+        return r
+    S = pathsem.strip_refs
+    SLOT = 'entity::allocator::slot::Slot'
+    g_i, l_i = adt_field_index(prog, SLOT, 'generation'), adt_field_index(prog, SLOT, 'location')
+    ID = 'entity::identifier::Identifier'
+    ii_i, ig_i = adt_field_index(prog, ID, 'index'), adt_field_index(prog, ID, 'generation')
+    LOC = 'entity::allocator::location::Location'
+    li_i, lx_i = adt_field_index(prog, LOC, 'identifier'), adt_field_index(prog, LOC, 'index')
     body = f.body
-    # slot writes: `(*slot) = Option::Some(Slot{..})`
-    writes = []
-    for b, i, s in body.stmts():
-        if s['k'] == 'assign' and s['place']['p'] == ['*']:
-            pt = body.local_ty(s['place']['l'])
-            inner = peel_refs(pt)
-            if is_adt(inner, 'core::option::Option') and inner['args'] and is_adt(inner['args'][0], 'entity::allocator::slot::Slot'):
-                writes.append((b, i, s))
-    r.inst('from_serialized_parts: %d slot writes' % len(writes))
-    if len(writes) != 2:
-        r.viol('G5iii', 'slot-write-count', f.loc(), 'expected two slot-filling sites (free list, archetype rows); found %d' % len(writes))
-    for b, i, s in writes:
-        sl = s['place']['l']
-        ok = False
-        for sb in range(body.n):
-            st = body.term(sb)
-            if st['k'] == 'switch':
-                dl = op_local(st['discr'])
-                dd = single_def(body, dl) if dl is not None else None
-                if dd and dd[0] == 'assign' and dd[3]['rv']['k'] == 'discr':
-                    pl = dd[3]['rv']['place']
-                    if pl['p'] == ['*'] and access_of_local(body, pl['l']).key() == access_of_local(body, sl).key() and 0 in st['values']:
-                        if body.edge_dominates((sb, st['targets'][st['values'].index(0)]), b):
-                            ok = True
-        if not ok:
-            # idiom: `if slot.is_some() { return Err(..) }` / `if slot.is_none() { *slot = .. }`
-            for cb, ct in body.calls(lambda c: c['name'] in ('is_some', 'is_none') and c['path'].startswith('core::option::Option')):
-                a = op_place(ct['args'][0])
-                if a is None or normalize_access(access_of_place(body, a)).key()[0] != normalize_access(access_of_local(body, sl)).key()[0]:
-                    continue
-                for sb_, t_true, t_false in bool_switches(body, ct['dest']['l']):
-                    empty_edge = t_false if ct['f']['name'] == 'is_some' else t_true
-                    if body.edge_dominates((sb_, empty_edge), b):
-                        ok = True
-        if not ok:
-            r.viol('G5iii', 'slot-overwrite', f.loc(s['ln']), 'a slot is filled without first checking that it is still empty: duplicate entity indices in the input would be accepted')
-    # get_mut results `?`-propagated
-    gm = [(b, t) for b, t in body.calls(lambda c: c['name'] == 'get_mut' and c['path'].startswith('core::slice'))]
-    r.inst('from_serialized_parts: %d bounds-checked slot lookups' % len(gm))
-    if len(gm) != 2:
-        r.viol('G5iii', 'unchecked-index', f.loc(), 'slot lookups must be bounds-checked get_mut (found %d)' % len(gm))
-    for b, t in gm:
-        d = derived(body, {t['dest']['l']})
-        if not any(tb for tb, tt in body.calls(lambda c: c['path'] == 'core::ops::Try::branch') if op_local(tt['args'][0]) in d):
-            r.viol('G5iii', 'index-error-dropped', f.loc(t['ln']), 'an out-of-range entity index is not turned into a deserialisation error')
-    # final Ok dominated by the exit of the is_none loop whose true arm returns Err
-    isn = [(b, t) for b, t in body.calls(lambda c: c['name'] == 'is_none')]
-    oks = result_blocks(body, 'Ok')
-    oks = [b for b in oks if any(s['rv'].get('ops') and True for bb, i, s in body.stmts() if bb == b)]
-    r.inst('from_serialized_parts: completeness check x%d' % len(isn))
-    if len(isn) != 1:
-        r.viol('G5iii', 'no-missing-slot-check', f.loc(), 'no check that every slot was filled (missing entity indices would reach unwrap_unchecked)')
-    else:
-        ib, it = isn[0]
-        cl = it['dest']['l']
-        sw = [(b, body.term(b)) for b in range(body.n) if body.term(b)['k'] == 'switch' and op_local(body.term(b)['discr']) == cl and 0 in body.term(b)['values']]
-        good = False
-        for sb, st in sw:
-            reach = body.reachable(st['otherwise'], avoid=[ib])
-            if set(result_blocks(body, 'Err')) & reach:
-                good = True
-        if not good:
-            r.viol('G5iii', 'missing-slot-not-rejected', f.loc(it['ln']), 'an unfilled slot does not produce an error')
-        # Ok aggregates of Allocator after that loop
-        allocs = [b for b, i, s in body.stmts() if s['k'] == 'assign' and s['rv']['k'] == 'agg' and s['rv'].get('path') == 'entity::allocator::Allocator']
-        loops = [lp for lp in loop_exit_edge(body) if ib in body.reachable(lp[3]) and lp[0] in body.reachable_after(ib)]
-        if len(loops) != 1:
-            r.viol('G5iii', 'completeness-loop', f.loc(it['ln']), 'the completeness check is not inside a loop over all slots')
-        else:
-            nb_, sb_, exit_t, body_t = loops[0]
-            for ab in allocs:
-                if not body.edge_dominates((sb_, exit_t), ab):
-                    r.viol('G5iii', 'allocator-built-before-check', f.loc(), 'the allocator is assembled on a path that does not run the completeness check over all slots')
-    # location provenance: Location{identifier: archetype.identifier(), index: i}
-    locs = [(b, i, s) for b, i, s in body.stmts() if s['k'] == 'assign' and s['rv']['k'] == 'agg' and s['rv'].get('path') == 'entity::allocator::location::Location']
-    if len(locs) != 1:
-        r.viol('G5iii', 'location-sites', f.loc(), 'expected one Location construction (archetype rows)')
-    else:
-        b, i, s = locs[0]
-        ops = s['rv']['ops']
-        il = op_local(ops[0])
-        d = single_def(body, access_of_local(body, il).root) if il is not None else None
-        if not (d and d[0] == 'call' and d[2]['f']['name'] == 'identifier'):
-            r.viol('G5iii', 'location-identifier', f.loc(s['ln']), 'deserialised location does not use the identifier of the archetype that holds the row')
-        xl = op_local(ops[1])
-        en = [(eb, et) for eb, et in body.calls(lambda c: c['name'] == 'enumerate')]
-        if xl is None or not en or not any(xl in derived(body, {et['dest']['l']}) for eb, et in en):
-            r.viol('G5iii', 'location-index', f.loc(s['ln']), 'deserialised location index is not the row position (enumerate index)')
+    p_free = ('p', body.arg_local('free'), 'free')
+    p_arch = ('p', body.arg_local('archetypes'), 'archetypes')
+    done = set()
+
+    def once(k, ln, msg):
+        if k not in done:
+            done.add(k)
+            r.viol('G5iii', k, f.loc(ln), msg)
+
+    def slot_lookup(loc):
+        """loc of a slot write -> (lookup call term, checked?) or None"""
+        t = loc
+        while isinstance(t, tuple) and t and t[0] in ('d', 'r'):
+            t = t[1]
+        checked = False
+        if isinstance(t, tuple) and t[0] == 'f' and isinstance(t[1], tuple) and t[1][0] == 'down' and t[1][2] == 'Some':
+            t = t[1][1]
+            checked = True
+        if isinstance(t, tuple) and t[0] == 'call' and t[1].startswith('core::slice') and t[1].rsplit('::', 1)[-1] in ('get_mut', 'get_unchecked_mut', 'index_mut'):
+            return t, checked and t[1].endswith('::get_mut')
+        if isinstance(t, tuple) and t[0] == 'call' and t[1] == 'core::ops::IndexMut::index_mut':
+            return t, False
+        return None
+
+    def elem_of(t, field, adt=ID):
+        """t == <element>.<field> (through derefs) -> element term"""
+        t = S(t)
+        if isinstance(t, tuple) and len(t) == 4 and t[0] == 'f' and t[2] == field and isinstance(t[3], str) and t[3].endswith(adt):
+            return S(t[1])
+        return None
+    n_store = n_lookup = n_scan = 0
+    saw_missing_rejected = False
+    slots_root = None
+    for p in E.paths:
+        for e in p.calls(lambda e: e['path'].startswith('core::slice') and e['name'] in ('get_mut', 'get_unchecked_mut', 'index_mut') and any(is_adt(x, 'core::option::Option') for x in e['f'].get('args', []))):
+            slots_root = slots_root or pathsem.iter_chain(e['args'][0])[0]
+    for p in E.paths:
+        if p.ended not in ('return', 'cutoff'):
+            continue
+        is_err = isinstance(p.ret, tuple) and p.ret[0] == 'agg' and p.ret[2] == 'Err'
+        is_ok = isinstance(p.ret, tuple) and p.ret[0] == 'agg' and p.ret[2] == 'Ok'
+        stores = [e for e in p.events if e['k'] == 'store' and isinstance(e['value'], tuple) and e['value'][0] == 'agg' and e['value'][1] == 'core::option::Option'
+                  and e['value'][2] == 'Some' and isinstance(e['value'][4][0], tuple) and e['value'][4][0][0] == 'agg' and e['value'][4][0][1] == SLOT]
+        for st in stores:
+            n_store += 1
+            lk = slot_lookup(st['loc'])
+            if lk is None:
+                once('slot-write-shape', st['ln'], 'cannot see which slot is written')
+                continue
+            g, checked = lk
+            slots_root = pathsem.iter_chain(g[2][0])[0]
+            if not checked:
+                once('unchecked-index', st['ln'], 'slot lookups must be bounds-checked get_mut (an out-of-range entity index in the input must become an error)')
+            if p.lookup(('discr', st['loc'])) != 0:
+                once('slot-overwrite', st['ln'], 'a slot is filled without first checking that it is still empty: duplicate entity indices in the input would be accepted')
+            slot = st['value'][4][0][4]
+            el = elem_of(g[2][1], ii_i)
+            if el is None or elem_of(slot[g_i], ig_i) != el:
+                once('slot-identity', st['ln'], 'the slot written is not the one at the entity identifier\'s index, or does not take that identifier\'s generation')
+                continue
+            src_root, kinds = pathsem.iter_chain(el[1]) if el[0] == 'elem' else (None, [])
+            locv = slot[l_i]
+            if locv == pathsem.NONE:
+                if S(src_root) not in (p_free, ('L', 0, p_free[1])):
+                    once('free-slot-source', st['ln'], 'a location-less (free) slot is created for an identifier that does not come from the serialised free list')
+            elif isinstance(locv, tuple) and locv[0] == 'agg' and locv[2] == 'Some' and isinstance(locv[4][0], tuple) and locv[4][0][0] == 'agg' and locv[4][0][1] == LOC:
+                lf = locv[4][0][4]
+                ident, index = lf[li_i], lf[lx_i]
+                # element comes from <archetype>.entity_identifiers() of an archetype of `archetypes`
+                arch = None
+                if isinstance(src_root, tuple) and src_root[0] == 'call' and src_root[1].endswith('::entity_identifiers'):
+                    arch = S(src_root[2][0])
+                ok_id = isinstance(ident, tuple) and ident[0] == 'call' and ident[1].endswith('::identifier') and arch is not None and S(ident[2][0]) == arch \
+                    and S(pathsem.iter_chain(arch[1])[0] if arch[0] == 'elem' else None) == p_arch
+                if not ok_id:
+                    once('location-identifier', st['ln'], 'deserialised location does not use the identifier of the archetype that holds the row')
+                ok_ix = isinstance(index, tuple) and index[0] == 'pos' and len(index) == len(el) and index[-1] == el[-1] and pathsem.iter_chain(index[1])[0] == src_root
+                if not ok_ix:
+                    once('location-index', st['ln'], 'deserialised location index is not the row position (enumerate index)')
+            else:
+                once('location-shape', st['ln'], 'cannot see the location stored in a slot')
+        # failed lookups must fail deserialisation
+        for e in p.calls(lambda e: e['path'].startswith('core::slice') and e['name'] == 'get_mut' and any(is_adt(x, 'core::option::Option') for x in e['f'].get('args', []))):
+            n_lookup += 1
+            if p.lookup(('discr', e['ret'])) == 0 and p.ended == 'return' and not is_err:
+                once('index-error-dropped', e['ln'], 'an out-of-range entity index is not turned into a deserialisation error')
+        if p.ended != 'return' or slots_root is None:
+            continue
+        # completeness scan over the slots
+        last_store = max([e['i'] for e in stores] or [-1])
+        scans = []
+        for (a_, v), at in zip(p.conds, p.conds.at):
+            if isinstance(a_, tuple) and a_[0] in ('next', 'nonempty') and pathsem.iter_chain(a_[1])[0] == slots_root:
+                scans.append((a_, v, at))
+        els = [('elem', a_[1], a_[2]) for a_, v, at in scans if a_[0] == 'next' and v == 1] + [('elem', a_[1]) for a_, v, at in scans if a_[0] == 'nonempty' and v is True]
+
+        def strip_enum(e):
+            return e
+
+        def slot_state(e):
+            """discriminant known for a scanned element (possibly behind enumerate's tuple / a reference)"""
+            root, kinds = pathsem.iter_chain(e[1])
+            for a_, v in p.conds:
+                if isinstance(a_, tuple) and a_[0] == 'discr' and not isinstance(v, tuple):
+                    inner = S(a_[1])
+                    while isinstance(inner, tuple) and inner[0] == 'f' and inner[3] == 'tuple':
+                        inner = S(inner[1])
+                    if isinstance(inner, tuple) and inner[0] == 'elem' and pathsem.iter_chain(inner[1])[0] == root and inner[2:] == e[2:]:
+                        return v
+            return None
+        states = [slot_state(e) for e in els]
+        if is_ok:
+            ended = [1 for a_, v, at in scans if at > last_store and ((a_[0] == 'next' and v == 0) or a_[0] == 'nonempty')]
+            if not ended:
+                once('no-missing-slot-check', None, 'no check that every slot was filled (missing entity indices would reach unwrap_unchecked)')
+            elif any(s_ != 1 for s_ in states):
+                once('missing-slot-not-rejected', None, 'an unfilled slot does not produce an error')
+            else:
+                n_scan += 1
+            post = [e for e in stores if any(at < e['i'] for a_, v, at in scans)]
+            if post:
+                once('allocator-built-before-check', post[0]['ln'], 'slots are still written after the completeness check')
+        elif is_err and any(s_ == 0 for s_ in states):
+            saw_missing_rejected = True
+    r.inst('from_serialized_parts: %d slot writes on %d paths' % (n_store, len(E.paths)))
+    r.inst('from_serialized_parts: %d bounds-checked slot lookups' % n_lookup)
+    r.inst('from_serialized_parts: completeness check on %d Ok paths' % n_scan)
+    if n_store < 2 or n_lookup < 2:
+        once('slot-write-count', None, 'expected slot-filling sites for the free list and for the archetype rows')
+    if n_scan and not saw_missing_rejected:
+        once('missing-slot-not-rejected', None, 'an unfilled slot does not produce an error')
+    if not n_scan:
+        once('no-missing-slot-check', None, 'no check that every slot was filled (missing entity indices would reach unwrap_unchecked)')
     return r
 
 
